@@ -251,7 +251,7 @@ func vh13Server(o *vhOut, thorough bool) {
 				vlens = []int64{0, int64(eff) - 11, int64(eff), int64(eff) + 50}
 			}
 			for _, vl := range vlens {
-				if vl < 0 {
+				if vl < 0 || vl > int64(maximumLength) { // Txattrwalk refuses values above maximumLength (EINVAL)
 					continue
 				}
 				fs := &vh13FS{xattr: make([]byte, vl)}
